@@ -70,7 +70,19 @@ func newDataReader(c *Conn) *dataReader {
 
 func (r *dataReader) Read(b []byte) (n int, err error) {
 	if r.limited {
-		if r.n <= 0 {
+		if r.n == 0 {
+			// The budget is used up, which is fine if the message ends
+			// here: look for the end marker.
+			var probe [1]byte
+			r.limited = false
+			n, err := r.Read(probe[:])
+			r.limited = true
+			if n == 0 {
+				return 0, err
+			}
+			r.n = -1
+		}
+		if r.n < 0 {
 			return 0, ErrDataTooLarge
 		}
 		if int64(len(b)) > r.n {
